@@ -58,6 +58,30 @@ func judgeMarkers(rep *lib.Report, s []byte, model *markersLine) {
 	if !bytes.Equal(rb, s) {
 		rep.Violate("markers:input-modified", "the input byte slice was modified", kase)
 	}
+	// conversions hand out values of their own: writing to the slice afterwards does not change a string obtained
+	// before, and writing to a slice obtained from a string does not change the string
+	if len(s) > 0 {
+		rb2 := redact.RedactableBytes(append([]byte(nil), s...))
+		str := rb2.ToString()
+		before := string(append([]byte(nil), str...))
+		for i := range rb2 {
+			rb2[i] ^= 0x20
+		}
+		if string(str) != before {
+			rep.Violate("markers:conversion-aliases", fmt.Sprintf("RedactableBytes.ToString: the string changed (%q -> %q) when the slice was written to afterwards", before, str), kase)
+		}
+		rs2 := redact.RedactableString(string(s))
+		bs := rs2.ToBytes()
+		if len(bs) > 0 {
+			func() {
+				defer func() { recover() }() // (writing into read-only string memory would fault: then it is aliased, too)
+				bs[0] ^= 0x20
+			}()
+		}
+		if string(rs2) != string(s) {
+			rep.Violate("markers:conversion-aliases", "RedactableString.ToBytes: writing to the slice changed the string", kase)
+		}
+	}
 	// arbitrary strings
 	if lib.HasMarker(stripS) {
 		if utf8.Valid(s) {
